@@ -63,6 +63,7 @@ class Call(object):
         self.own_vk = own_vk        # passes **OWN_KWARGS
         self.partial = partial      # written as functools.partial(callee, ...)
         self.nested = False         # sits in a nested def / lambda
+        self.unresolvable = False   # callee reached through a subscripted registry
 
     def expr(self, callee_expr, va_name, vk_name, chain=None):
         args = [str(100 + i) for i in range(self.n)]
@@ -96,11 +97,11 @@ class Call(object):
     def describe(self):
         return {'callee': self.callee, 'n': self.n, 'names': [name_of(k) for k in self.names],
                 'va': self.va, 'vk': self.vk, 'own_va': self.own_va, 'own_vk': self.own_vk,
-                'partial': self.partial, 'nested': self.nested}
+                'partial': self.partial, 'nested': self.nested, 'unresolvable': self.unresolvable}
 
 
 CONTEXTS = ['return', 'assign', 'if', 'try', 'with', 'comprehension', 'nested_def',
-            'lambda', 'decoy_before', 'decoy_wrap', 'ifelse2']
+            'lambda', 'decoy_before', 'decoy_wrap', 'ifelse2', 'nested_decoy', 'lambda_decoy']
 ROUTES = ['global', 'closure', 'attribute', 'method', 'parameter', 'partial_route', 'chain_kw', 'chain_pos']
 TAINTS = ['rebind', 'augassign', 'mutate_method', 'mutate_item', 'delete', 'pass_on',
           'nonlocal', 'read']
@@ -177,7 +178,8 @@ class Prog(object):
 
     def render(self):
         body = []
-        exprs = [c.expr(self.callee_expr(c.callee), self.va_name, self.vk_name, self.route) for c in self.calls]
+        exprs = [c.expr("REG['%s']" % c.callee if c.unresolvable else self.callee_expr(c.callee),
+                        self.va_name, self.vk_name, None if c.unresolvable else self.route) for c in self.calls]
         for i in range(self.decoys):
             body.append('decoy(%d, k=%d)' % (i, i))
         taint_before = taint_after = []
@@ -230,6 +232,16 @@ class Prog(object):
             body += taint_after
             taint_after = []
             body.append('return ' + res)
+        elif ctx == 'nested_decoy':
+            body += ['def inner_():', '    return decoy(%s)' % e, '%s = inner_()' % res]
+            body += taint_after
+            taint_after = []
+            body.append('return ' + res)
+        elif ctx == 'lambda_decoy':
+            body.append('%s = (lambda: decoy(0, k=%s))()' % (res, e))
+            body += taint_after
+            taint_after = []
+            body.append('return ' + res)
         elif ctx == 'lambda':
             body.append('%s = (lambda: %s)()' % (res, e))
             body += taint_after
@@ -253,7 +265,7 @@ class Prog(object):
             body = body[:-1] + extra + body[-1:]
         for c in self.calls:
             c.nested = False
-        if ctx in ('nested_def', 'lambda'):
+        if ctx in ('nested_def', 'lambda', 'nested_decoy', 'lambda_decoy'):
             self.calls[0].nested = True
 
         outer_src = param_list_src(self.outer)
@@ -278,6 +290,7 @@ class Prog(object):
         else:
             for d in cal_defs:
                 lines += [d[0], d[1]]
+            lines.append('REG = {%s}' % ', '.join("'%s': %s" % (k, k) for k in self.callees))
             lines += ['def mid_chain_kw(*args, fparam, **kwargs):', '    return fparam(*args, **kwargs)',
                       'def mid_chain_pos(fparam, *args, **kwargs):', '    return fparam(*args, **kwargs)']
             if self.route == 'attribute':
@@ -301,6 +314,20 @@ class Prog(object):
                 lines += ['    ' + b for b in body]
         self.source = '\n'.join(lines) + '\n'
         return self.source
+
+
+def literal_part_binds(cps, n, names):
+    """could the literal arguments of the written call ever be accepted by the
+    callee?  (programs whose call can never succeed are not generated)"""
+    import inspect
+    from core import KINDS, py_default
+    params = [inspect.Parameter(name_of(nm), KINDS[k], default=py_default(de))
+              for (nm, k, de, an, ua) in cps]
+    try:
+        inspect.Signature(params).bind_partial(*([0] * n), **{name_of(k): 0 for k in names})
+    except TypeError:
+        return False
+    return True
 
 
 def outer_universe():
@@ -361,6 +388,9 @@ def gen_programs(rng, count, tainted=False, contexts=None, routes=None):
                 names = rng.sample(kwable, rng.randint(1, len(kwable)))
             if rng.random() < 0.05:
                 names.append(id_of_name('z'))
+            if not literal_part_binds(cps, n, names):
+                ok = False
+                break
             va = has_va and rng.random() < 0.85
             vk = has_vk and rng.random() < 0.85
             own_va = rng.random() < 0.08
@@ -371,7 +401,13 @@ def gen_programs(rng, count, tainted=False, contexts=None, routes=None):
                 else:
                     vk = True
             partial = (p.route == 'partial_route')
-            p.calls.append(Call(key, n, names, va, vk, own_va, own_vk, partial))
+            cobj = Call(key, n, names, va, vk, own_va, own_vk, partial)
+            if (len(p.calls) == 1 and p.route in ('global', 'closure', 'attribute')
+                    and rng.random() < 0.25):
+                cobj.unresolvable = True
+            p.calls.append(cobj)
+        if not ok:
+            continue
         if p.route == 'partial_route':
             p.route = 'global'
             for c in p.calls:
